@@ -166,6 +166,8 @@ OCT [0-7]
 
 <STRING>"%(" {
   yylval->f->flush_str ();
+  // An embedded expression starts outside of any string literal of its own.
+  yylval->f->in_string = false;
   BEGIN STRING_EMBEDDED;
 }
 
